@@ -471,6 +471,8 @@ class CompoundInterval(Location):
         for start, end in zip(self._starts, self._ends):
             if start > end:
                 raise InvalidPositionException("Block starts must be less than block ends")
+            if start < 0:
+                raise InvalidPositionException(f"Block starts must not be negative: {start}")
             length += end - start
         self.length = length
 
